@@ -404,6 +404,28 @@ def wl_split_crop(ctx, rng, case_no):
                          lambda: list(Segment.split_and_crop_lines(list(segs), length, style=pad_style, pad=pad,
                                                                    include_new_lines=incl)),
                          lambda r: [_seg_repr(l) for l in r], {"segments": _seg_repr(segs), "length": length})
+    if rng.random() < 0.3:
+        # a consumer that takes the lines one at a time and edits each in place before asking for the next (decorates
+        # it, trims it, re-uses the list): what it is handed later must not depend on what it did to what it was
+        # handed earlier
+        taken = []
+        for line in Segment.split_and_crop_lines(list(segs), length, style=pad_style, pad=pad, include_new_lines=incl):
+            taken.append(list(line))
+            if isinstance(line, list):
+                how = rng.random()
+                if how < 0.4:
+                    del line[:]
+                elif how < 0.8:
+                    line.insert(0, Segment("POISON| "))
+                else:
+                    line.append(Segment("poison"))
+        ctx.count("mon.incremental_consumer")
+        calm = [list(l) for l in Segment.split_and_crop_lines(list(segs), length, style=pad_style, pad=pad,
+                                                              include_new_lines=incl)]
+        if [_seg_repr(l) for l in taken] != [_seg_repr(l) for l in calm]:
+            ctx.violation("split_and_crop-lines-depend-on-what-the-consumer-did-to-earlier-lines",
+                          {"segments": _seg_repr(segs), "length": length, "pad": pad, "include_new_lines": incl,
+                           "handed_out": [_seg_repr(l) for l in taken], "undisturbed": [_seg_repr(l) for l in calm]})
     out = [list(l) for l in Segment.split_and_crop_lines(
         list(segs), length, style=pad_style, pad=pad, include_new_lines=incl)]
     ctx.count("mon.split_and_crop")
